@@ -283,3 +283,386 @@ def lem_more_info(M, n, s):
     for c in range(1 << n):
         M.check(f"mono.lower[{c}]", M.and_(L[c] <= L2[c], L2[c] <= v[c]))
         M.check(f"mono.upper[{c}]", M.and_(v[c] <= U2[c], U2[c] <= U[c]))
+
+
+# ---------------------------------------------------------------------------------------------
+# gap functions (C05, C07)
+from spec import norms as NRM
+
+GAPS = ("exploitability", "l1_norm", "l2_norm", "linf_norm")
+
+
+def gap_function(M, name):
+    """The gap function registered under `name` (run/model.py GAP_FUNCTIONS)."""
+    return M.mod("run.model").GAP_FUNCTIONS[name]
+
+
+def arbitrary_bounds_game(M, n, tag="", ordered=False):
+    """A game object with arbitrary real lower/upper bounds (known flags irrelevant for gap functions
+    except the grand coalition, which is known; the empty coalition has the interval [0,0])."""
+    game_m = M.mod("game")
+    C = M.mod("coalitions").Coalition
+    g = game_m.IncompleteCooperativeGame(n)
+    lo, up = [M.const(0)], [M.const(0)]
+    full = (1 << n) - 1
+    for c in range(1, 1 << n):
+        if c == full:
+            x = M.real(f"{tag}vN")
+            g.set_value(x, C(c))
+            lo.append(x)
+            up.append(x)
+            continue
+        l, u = M.real(f"{tag}lo{c}"), M.real(f"{tag}up{c}")
+        if ordered:
+            M.assume(l <= u)
+        M.put_row(g, c, False, 0, l, u)
+        lo.append(l)
+        up.append(u)
+    return g, lo, up
+
+
+@scenario
+def sc_gap_contract(M, n, gap):
+    """Contract of each offered gap function on an arbitrary bound table:
+    l1 = sum |w|, linf = max |w|, l2 >= 0 and l2^2 = sum w^2, exploitability = sum_S w(S)/C(n,|S|),  w = up - lo."""
+    g, lo, up = arbitrary_bounds_game(M, n)
+    r = M.val(gap_function(M, gap)(g))
+    w = NRM.widths(lo, up)
+    if gap == "l1_norm":
+        M.check("l1.is_sum_abs", r == NRM.l1(M, w))
+    elif gap == "linf_norm":
+        M.check("linf.is_max_abs", r == NRM.linf(M, w))
+    elif gap == "l2_norm":
+        M.check("l2.nonneg", r >= 0)
+        M.check("l2.square_is_sumsq", r * r == NRM.sumsq(M, w))
+    else:
+        M.check("exploitability.is_binomial_gap", r == NRM.binomial_gap(M, n, w))
+
+
+@scenario
+def lem_gap_monotone(M, n, gap):
+    """0 <= w' <= w pointwise  =>  gap(w') <= gap(w);  gap(w) >= 0;  gap(0) = 0 (spec level)."""
+    N = 1 << n
+    w = [M.real(f"w{c}") for c in range(N)]
+    w2 = [M.real(f"x{c}") for c in range(N)]
+    for c in range(N):
+        M.assume(M.and_(0 <= w2[c], w2[c] <= w[c]))
+    zero = [M.const(0)] * N
+    if gap == "l2_norm":
+        # monotonicity of the Euclidean norm, decomposed into three small steps whose composition is
+        # transitivity: (i) termwise 0<=x<=y => x^2<=y^2; (ii) sums are monotone (squares abstracted
+        # by fresh s_c <= t_c); (iii) for r, r2 >= 0: r2^2 <= r^2 => r2 <= r.
+        for c in range(N):
+            M.check(f"l2.termwise[{c}]", w2[c] * w2[c] <= w[c] * w[c])
+        s_ = [M.real(f"s{c}") for c in range(N)]
+        t_ = [M.real(f"t{c}") for c in range(N)]
+        M.check("l2.sum_monotone", M.implies(M.and_(*[a <= b for a, b in zip(s_, t_)]), M.sum_(s_) <= M.sum_(t_)))
+        r, r2, A, B = M.real("r"), M.real("r2"), M.real("A"), M.real("B")
+        M.check("l2.root_monotone", M.implies(M.and_(r >= 0, r2 >= 0, r * r == A, r2 * r2 == B, B <= A), r2 <= r))
+        M.check("l2.zero", M.implies(M.and_(r >= 0, r * r == 0), r == 0))
+        M.check("l2.zero_only_if_degenerate", M.implies(M.and_(r == 0, r * r == NRM.sumsq(M, w)), M.and_(*[x == 0 for x in w])))
+        return
+    f = {"l1_norm": lambda x: NRM.l1(M, x), "linf_norm": lambda x: NRM.linf(M, x),
+         "exploitability": lambda x: NRM.binomial_gap(M, n, x)}[gap]
+    M.check(f"{gap}.monotone", f(w2) <= f(w))
+    M.check(f"{gap}.nonneg", f(w) >= 0)
+    M.check(f"{gap}.zero", f(zero) == 0)
+    M.check(f"{gap}.zero_only_if_degenerate", M.implies(f(w) == 0, M.and_(*[x == 0 for x in w])))
+
+
+# ---------------------------------------------------------------------------------------------
+# Shapley value and exploitability (C05, C06)
+from spec import shapley as SH
+
+
+def complete_game(M, n, v, computer=None):
+    """A fully known IncompleteCooperativeGame holding the values v."""
+    game_m = M.mod("game")
+    g = game_m.IncompleteCooperativeGame(n) if computer is None else game_m.IncompleteCooperativeGame(n, computer)
+    C = M.mod("coalitions").Coalition
+    for c in range(1 << n):
+        g.set_value(v[c], C(c))
+    return g
+
+
+@scenario
+def sc_shapley(M, n, canary=False):
+    """C06: for every real-valued complete game with v(empty)=0 and every player, both entry points return
+    the average marginal contribution over the n! orderings; efficiency; null player."""
+    sh = M.mod("shapley")
+    v = declare_game(M, n)
+    g = complete_game(M, n, v)
+    allp = [M.val(x) for x in sh.compute_shapley_value(g)]
+    M.check("all_players.length", len(allp) == n)
+    phis = []
+    for i in range(n):
+        r = M.val(sh.compute_shapley_value_for_player(i, g))
+        phis.append(r)
+        M.check(f"is_ordering_average[{i}]", r == SH.shapley_by_orderings(M, n, v, i))
+        M.check(f"entry_points_agree[{i}]", r == allp[i])
+        null = M.and_(*[v[c | (1 << i)] == v[c] for c in range(1 << n) if not c >> i & 1])
+        M.check(f"null_player[{i}]", M.implies(null, r == 0))
+    M.check("efficiency", M.sum_(phis) == v[(1 << n) - 1])
+    if canary:
+        M.check("canary.equal_split", phis[0] == v[(1 << n) - 1] / M.const(n), canary=True)
+
+
+def _permute_coalition(c, a, b):
+    """Swap players a and b in coalition c."""
+    ba, bb = c >> a & 1, c >> b & 1
+    if ba != bb:
+        c ^= (1 << a) | (1 << b)
+    return c
+
+
+@scenario
+def sc_shapley_algebra(M, n, a=0, b=1):
+    """C06 consequences on the code's outputs: relabelling players a<->b permutes the values; linearity."""
+    sh = M.mod("shapley")
+    v = declare_game(M, n, "v")
+    w = declare_game(M, n, "w")
+    lam = M.real("lam")
+    gv = complete_game(M, n, v)
+    gperm = complete_game(M, n, [v[_permute_coalition(c, a, b)] for c in range(1 << n)])
+    glin = complete_game(M, n, [lam * v[c] + w[c] for c in range(1 << n)])
+    gw = complete_game(M, n, w)
+    pv = [M.val(x) for x in sh.compute_shapley_value(gv)]
+    pp = [M.val(x) for x in sh.compute_shapley_value(gperm)]
+    pl = [M.val(x) for x in sh.compute_shapley_value(glin)]
+    pw = [M.val(x) for x in sh.compute_shapley_value(gw)]
+    for i in range(n):
+        j = b if i == a else a if i == b else i
+        M.check(f"relabel[{i}]", pp[i] == pv[j])
+        M.check(f"linear[{i}]", pl[i] == lam * pv[i] + pw[i])
+
+
+@scenario
+def sc_exploitability(M, n, canary=False):
+    """C05: for any bound table with known grand coalition (empty coalition [0,0]):
+    result = sum_i shapley(maxgain_i)(i) - v(N) = sum_S (up(S)-lo(S))/C(n,|S|); MaxGainGame's two entry
+    points equal the spec maxgain_i(S) = up(S) if i in S else lo(S)."""
+    ex = M.mod("exploitability")
+    C = M.mod("coalitions").Coalition
+    g, lo, up = arbitrary_bounds_game(M, n)
+    full = (1 << n) - 1
+    r = M.val(ex.compute_exploitability(g))
+    w = NRM.widths(lo, up)
+    best = []
+    for i in range(n):
+        mg = [up[c] if c >> i & 1 else lo[c] for c in range(1 << n)]
+        G_i = ex.MaxGainGame(g, i)
+        vals = [M.val(x) for x in G_i.get_values()]
+        some = [C(c) for c in range(1 << n) if c % 3 != 1]
+        vals_some = [M.val(x) for x in G_i.get_values(some)]
+        for c in range(1 << n):
+            M.check(f"maxgain.get_values[{i},{c}]", vals[c] == mg[c])
+            M.check(f"maxgain.get_value[{i},{c}]", M.val(G_i.get_value(C(c))) == mg[c])
+        for x, cc in zip(vals_some, some):
+            M.check(f"maxgain.get_values_subset[{i},{cc.id}]", x == mg[cc.id])
+        best.append(SH.shapley_by_orderings(M, n, mg, i))
+    M.check("is_summed_best_shapley", r == M.sum_(best) - up[full])
+    M.check("is_binomial_gap", r == NRM.binomial_gap(M, n, w))
+    ordered = M.and_(*[lo[c] <= up[c] for c in range(1 << n)])
+    M.check("nonneg_if_ordered", M.implies(ordered, r >= 0))
+    M.check("zero_iff_degenerate", M.implies(ordered, M.iff(r == 0, M.and_(*[x == 0 for x in w]))))
+    if canary:
+        M.check("canary.is_l1", r == NRM.l1(M, w), canary=True)
+
+
+@scenario
+def sc_exploitability_dominates(M, n, i):
+    """C05 domination: for every completion w inside the box and player i, the code's Shapley value of i in w
+    never exceeds the code's Shapley value of i in the max-gain game used by compute_exploitability."""
+    ex = M.mod("exploitability")
+    sh = M.mod("shapley")
+    g, lo, up = arbitrary_bounds_game(M, n)
+    w = [M.const(0)] + [M.real(f"w{c}") for c in range(1, 1 << n)]
+    for c in range(1 << n):
+        M.assume(M.and_(lo[c] <= w[c], w[c] <= up[c]))
+    gw = complete_game(M, n, w)
+    phi_w = M.val(sh.compute_shapley_value_for_player(i, gw))
+    G_i = ex.MaxGainGame(g, i)
+    phi_max = M.val(sh.compute_shapley_value_for_player(i, G_i))
+    M.check(f"dominated[{i}]", phi_w <= phi_max)
+
+
+# ---------------------------------------------------------------------------------------------
+# approximate superadditive-monotone bounds (C04)
+
+SAM_FN = "compute_bounds_superadditive_monotone_approx_cached"
+
+
+def sam_cut_package():
+    """The repository loaded with the outer loop of the SAM computer cut by its invariant."""
+    from pyvc import loader, loopcut
+    rt = loopcut.CutRuntime()
+    pkg = loader.Package(loopcuts={"bounds": [(SAM_FN, 0, "sam.outer")]},
+                         inject={"bounds": {"range": loopcut.sym_range}}, vc_runtime=rt)
+    pkg.cut_runtime = rt
+    return pkg
+
+
+def sam_post(M, n, k, v, kn, lo, up, L, U, tag=""):
+    for c in range(1 << n):
+        M.check(f"{tag}frame.known[{c}]", M.iff(kn[c], k[c]))
+        M.check(f"{tag}contains[{c}]", M.and_(lo[c] <= v[c], v[c] <= up[c]))
+        M.check(f"{tag}known_exact[{c}]", M.implies(k[c], M.and_(lo[c] == v[c], up[c] == v[c])))
+        M.check(f"{tag}not_looser_than_sa[{c}]", M.and_(lo[c] >= L[c], up[c] <= U[c]))
+        for i in range(n):
+            if c >> i & 1:
+                M.check(f"{tag}lower_monotone[{c ^ (1 << i)}>={c}]", lo[c ^ (1 << i)] >= lo[c])
+        subs_ok = [M.implies(k[a], up[c] <= v[a]) for a in proper_nonempty_subsets(c)]
+        sups_ok = [M.implies(k[t], up[c] <= v[t] - lo[t ^ c]) for t in strict_supersets(c, n)]
+        if c:
+            M.check(f"{tag}upper_consistent[{c}]", M.and_(*(subs_ok + sups_ok)))
+
+
+@scenario
+def sc_sam(M, n, reps, canary=False):
+    """Contract of the SAM approximation for a concrete repetition count (loop unrolled)."""
+    bounds = M.mod("bounds")
+    from functools import partial
+    v = declare_game(M, n)
+    assume_class(M, n, v, "sam_apx")
+    comp = partial(getattr(bounds, SAM_FN), repetitions=reps)
+    g, k = make_incomplete(M, n, comp, v)
+    g.compute_bounds()
+    kn, lo, up = table(M, g, n)
+    L = G.lower_spec(M, n, k, v)
+    U = G.upper_spec(M, n, k, v, L)
+    sam_post(M, n, k, v, kn, lo, up, L, U)
+    if canary:
+        M.check("canary.equals_sa_lower", lo[3] == L[3], canary=True)
+
+
+@scenario
+def sc_sam_registry(M, n, key):
+    """The registered partial `key` (sam_apx_<r>) is the SAM computer with repetitions = r."""
+    bounds = M.mod("bounds")
+    r = int(key.rsplit("_", 1)[1])
+    f = bounds.BOUNDS[key]
+    M.check("registry.func", getattr(f, "func", None) is getattr(bounds, SAM_FN))
+    M.check("registry.repetitions", getattr(f, "keywords", {}) == {"repetitions": r} and not getattr(f, "args", ()))
+
+
+@scenario
+def sc_sam_more_reps(M, n, reps):
+    """Raising the repetition count never loosens: r vs r+1 on the same pre-state (unrolled)."""
+    bounds = M.mod("bounds")
+    from functools import partial
+    v = declare_game(M, n)
+    assume_class(M, n, v, "sam_apx")
+    g1, k = make_incomplete(M, n, partial(getattr(bounds, SAM_FN), repetitions=reps), v, tag="a")
+    g2, _ = make_incomplete(M, n, partial(getattr(bounds, SAM_FN), repetitions=reps + 1), v, tag="b", known=k)
+    g1.compute_bounds()
+    g2.compute_bounds()
+    _, l1, u1 = table(M, g1, n)
+    _, l2, u2 = table(M, g2, n)
+    for c in range(1 << n):
+        M.check(f"more_reps.lower[{c}]", l1[c] <= l2[c])
+        M.check(f"more_reps.upper[{c}]", u2[c] <= u1[c])
+
+
+@scenario
+def sc_sam_cut(M, n, mode="exit"):
+    """The SAM computer for EVERY repetition count: outer loop cut by the invariant
+        Inv(i) := known flags and known rows unchanged, upper column unchanged, and
+                  (i >= 1  =>  for all C: L(C) <= lo(C) <= v*(C) and lo non-increasing along inclusion).
+    Nothing is assumed about stale rows at i = 0.  Natively: runs the real function with the given count."""
+    bounds = M.mod("bounds")
+    C = M.mod("coalitions").Coalition
+    v = declare_game(M, n)
+    assume_class(M, n, v, "sam_apx")
+    reps = M.int("reps", lo=0)
+    mini = set(minimal(n))
+    from functools import partial
+    g, k = make_incomplete(M, n, None, v)
+    L = G.lower_spec(M, n, k, v)
+    U = G.upper_spec(M, n, k, v, L)
+    if M.symbolic:
+        rt = M.pkg.cut_runtime
+        rt.mode = mode
+        up0 = [g._values[c, 2] for c in range(1 << n)]
+        kn0 = [g._values[c, 0] for c in range(1 << n)]
+        cnt = [0]
+
+        def havoc(loc, why):
+            gg = loc["game"]
+            cnt[0] += 1
+            for c in range(1 << n):
+                if c not in mini:
+                    gg._values[c, 1] = M.ite(k[c], v[c], M.real(f"h{cnt[0]}.{why}.lo{c}"))
+
+        def inv(loc, i):
+            gg = loc["game"]
+            lo = [gg._values[c, 1] for c in range(1 << n)]
+            known_rows = M.and_(*[M.implies(k[c], lo[c] == v[c]) for c in range(1 << n)])
+            sound = M.and_(*[M.and_(L[c] <= lo[c], lo[c] <= v[c]) for c in range(1 << n)])
+            mono = M.and_(*[lo[u ^ (1 << j)] >= lo[u] for u in range(1, 1 << n) for j in range(n) if u >> j & 1])
+            return M.and_(known_rows, M.implies(i >= 1, M.and_(sound, mono)))
+
+        def frame(loc):
+            gg = loc["game"]
+            return ([gg._values[c, 0] for c in range(1 << n)], [gg._values[c, 2] for c in range(1 << n)],
+                    [gg._values[c, 1] for c in range(1 << n)])
+
+        def frame_ok(snap, loc):
+            gg = loc["game"]
+            f0, f2, f1 = snap
+            conds = []
+            for c in range(1 << n):
+                conds.append(gg._values[c, 0] == f0[c])
+                conds.append(gg._values[c, 2] == f2[c])
+                if c in mini:
+                    conds.append(gg._values[c, 1] == f1[c])
+            return M.and_(*conds)
+
+        def variant(loc, i):
+            # the body is inflationary once the invariant's i >= 1 part holds (never loosens with the count)
+            gg = loc["game"]
+            pre = rt.snap[2]
+            return [(f"inflationary[{c}]", M.implies(i >= 1, gg._values[c, 1] >= pre[c])) for c in range(1 << n)]
+
+        rt.spec["sam.outer"] = {"inv": inv, "havoc": havoc, "frame": frame, "frame_ok": frame_ok, "variant": variant}
+    getattr(bounds, SAM_FN)(g, reps)
+    kn, lo, up = table(M, g, n)
+    sam_post(M, n, k, v, kn, lo, up, L, U, tag="post.")
+
+
+@scenario
+def sc_sam_final_antitone(M, n):
+    """The final upper pass is antitone in the lower table: from lo1 <= lo2 pointwise (same knowledge),
+    up2 <= up1.  With 'the body is inflationary' this gives: r+1 repetitions never looser than r.
+    Checked on the cut program's exit path run twice with independently havoced lower tables."""
+    bounds = M.mod("bounds")
+    v = declare_game(M, n)
+    assume_class(M, n, v, "sam_apx")
+    reps = M.int("reps", lo=0)
+    mini = set(minimal(n))
+    g1, k = make_incomplete(M, n, None, v, tag="a")
+    g2, _ = make_incomplete(M, n, None, v, tag="b", known=k)
+    rt = M.pkg.cut_runtime
+    rt.mode = "exit"
+    lows = {}
+
+    def mk(tag):
+        def havoc(loc, why):
+            gg = loc["game"]
+            for c in range(1 << n):
+                if c not in mini:
+                    gg._values[c, 1] = M.ite(k[c], v[c], M.real(f"{tag}.lo{c}"))
+            lows[tag] = [gg._values[c, 1] for c in range(1 << n)]
+        return havoc
+
+    true_inv = lambda loc, i: M.and_()
+    rt.spec["sam.outer"] = {"inv": true_inv, "havoc": mk("one")}
+    getattr(bounds, SAM_FN)(g1, reps)
+    rt.spec["sam.outer"] = {"inv": true_inv, "havoc": mk("two")}
+    getattr(bounds, SAM_FN)(g2, reps)
+    for c in range(1 << n):
+        M.assume(lows["one"][c] <= lows["two"][c])
+    _, l1, u1 = table(M, g1, n)
+    _, l2, u2 = table(M, g2, n)
+    for c in range(1 << n):
+        M.check(f"final_pass.antitone[{c}]", u2[c] <= u1[c])
+        M.check(f"final_pass.keeps_lower[{c}]", M.and_(l1[c] == lows["one"][c], l2[c] == lows["two"][c]))
